@@ -465,7 +465,7 @@ func c03Receiver(rc *RC) {
 		done = true
 	})
 	// scripted client program
-	acts := []string{"auth-unknown-plain-payload", "auth-unknown-twostep-payload", "auth-plain-good", "auth-plain-good", "auth-plain-3parts-bad", "auth-plain-malformed", "auth-plain-eq", "auth-plain-empty", "auth-plain-badb64", "auth-twostep", "auth-unoffered", "auth-unknown", "response-first", "abort", "foreign", "auth-nomech"}
+	acts := []string{"auth-unknown-plain-payload", "auth-unknown-twostep-payload", "auth-plain-good", "auth-plain-good", "auth-plain-3parts-bad", "auth-plain-malformed", "auth-plain-eq", "auth-plain-empty", "auth-plain-badb64", "auth-plain-good-then-garbage", "auth-twostep-garbage-tail", "auth-twostep", "auth-unoffered", "auth-unknown", "response-first", "abort", "foreign", "auth-nomech"}
 	var prog []string
 	for i, n := 0, ch.Range("script", 1, 4); i < n; i++ {
 		prog = append(prog, acts[ch.Int("script", len(acts))])
@@ -476,6 +476,7 @@ func c03Receiver(rc *RC) {
 	out := sc.Out()
 	var sentLog []string
 	lastAuthMech := "?"
+	undecodable := false // the payload of the last <auth/> or <response/> was not valid base64
 	rc.Spawn("script", func() {
 		io.WriteString(cc, `<?xml version='1.0'?><stream:stream xmlns='jabber:client' xmlns:stream='http://etherx.jabber.org/streams' version='1.0' to='example.net'>`)
 		simrt.WaitUntil("script:features", func() bool { return done || bytes.Contains(out.Tap, []byte("</stream:features>")) })
@@ -485,6 +486,7 @@ func c03Receiver(rc *RC) {
 			}
 			before := len(out.Tap)
 			send := func(s string) { sentLog = append(sentLog, s); io.WriteString(cc, s) }
+			undecodable = false
 			auth := func(mech, payload string) {
 				lastAuthMech = mech
 				send(fmt.Sprintf(`<auth xmlns='%s' mechanism='%s'>%s</auth>`, nsSASL, mech, payload))
@@ -502,6 +504,20 @@ func c03Receiver(rc *RC) {
 				auth("PLAIN", "")
 			case "auth-plain-badb64":
 				auth("PLAIN", "!!!*")
+			case "auth-plain-good-then-garbage":
+				// decodable up to the first illegal character: the payload as a whole is not base64
+				undecodable = true
+				auth("PLAIN", base64.StdEncoding.EncodeToString([]byte("\x00user\x00pass12"))+[]string{"!!!!", "*", "=A=="}[ch.Int("script", 3)])
+			case "auth-twostep-garbage-tail":
+				auth("X-TWOSTEP", b64([]byte("hello")))
+				simrt.WaitUntil("script:challenge3", func() bool { return done || len(out.Tap) > before })
+				if bytes.Contains(out.Tap[before:], []byte("<challenge")) {
+					before = len(out.Tap)
+					undecodable = true
+					send(fmt.Sprintf(`<response xmlns='%s'>%s</response>`, nsSASL, base64.StdEncoding.EncodeToString([]byte("usr\x00pw"))+"!!!!"))
+				} else {
+					continue
+				}
 			case "auth-twostep":
 				auth("X-TWOSTEP", b64([]byte("hello")))
 				simrt.WaitUntil("script:challenge", func() bool { return done || len(out.Tap) > before })
@@ -569,6 +585,12 @@ func c03Receiver(rc *RC) {
 	}
 	if bytes.Contains(out.Tap, []byte("<success")) && !granted {
 		rc.Failf("C03.c2", "success-sent-without-authn", "receiver wrote <success/> but its SASL step did not return the Authn mask (steps %+v)", steps)
+	}
+	if granted && undecodable {
+		rc.Failf("C03.c2", "authn-on-undecodable-payload", "receiver marked the session authenticated although the last payload it was sent is not valid base64; client sent %v", sentLog)
+	}
+	if i := bytes.Index(out.Tap, []byte("<failure")); i >= 0 && bytes.Contains(out.Tap[i:], []byte("<success")) {
+		rc.Failf("C03.c2", "success-after-failure", "receiver wrote <failure/> and then <success/> in one exchange; client sent %v", sentLog)
 	}
 	if granted {
 		rc.Evals["C03.c2"]++
